@@ -94,9 +94,9 @@ def main():
             diff = os.path.join(out, "change%d.diff" % i)
             if not os.path.exists(diff):
                 continue
-            sid = "%s-%d" % (pid, i + {1: 0, 2: 2, 4: 4, 6: 6, 8: 8}.get(ROUND, 2 * (ROUND - 1)))   # rounds 3 and 5 were refactoring rounds
+            sid = "%s-%d" % (pid, i + {1: 0, 2: 2, 4: 4, 6: 6, 8: 8, 10: 10}.get(ROUND, 2 * (ROUND - 1)))   # rounds 3 and 5 were refactoring rounds
             conf = confirm(pid, i)
-            checks = run_checks(pid, diff) if conf.get("confirmed") else {}
+            checks = run_checks(pid, diff) if conf.get("confirmed") and not os.environ.get("ISOQ_SKIP_CHECKS") else {}   # (skipped: tools/recheck_parallel.py runs them on scratch worktrees)
             caught_own = pid in checks and checks[pid].get("exit") == 1
             caught_any = [c for c, v in checks.items() if isinstance(v, dict) and v.get("exit") == 1]
             d = os.path.join(VERIF, "seeded", sid)
